@@ -133,7 +133,9 @@ static void CloseTarget(void) {
 
     /* compute checksum over file? */
 
-    if (DoCheckSum) {
+    /* (an empty image has no last byte that could take the checksum) */
+
+    if (DoCheckSum && (RealFileLen > 0)) {
         LongWord Sum, Size, Rest, Trans, Read;
 
         TargFile = fopen(TargName, OPENUPMODE);
